@@ -314,3 +314,29 @@ def tmpdir(prefix):
     base = os.path.join(VERIF, ".work")
     os.makedirs(base, exist_ok=True)
     return tempfile.mkdtemp(prefix=prefix, dir=base)
+
+
+class TimeLimit(Exception):
+    pass
+
+
+class time_limit:
+    """with time_limit(seconds): ... raises TimeLimit in the main thread when the block takes longer (SIGALRM)."""
+
+    def __init__(self, seconds):
+        self.seconds = seconds
+
+    def __enter__(self):
+        import signal
+
+        def handler(sig, frm):
+            raise TimeLimit()
+        self.old = signal.signal(signal.SIGALRM, handler)
+        signal.alarm(self.seconds)
+        return self
+
+    def __exit__(self, *a):
+        import signal
+        signal.alarm(0)
+        signal.signal(signal.SIGALRM, self.old)
+        return False
